@@ -35,7 +35,7 @@ def run(ctx):
     c01.clause_recs_for(ctx, ["ADWIN", "ADWINAccuracy"])
     # documented: delta outside [0, 1] is rejected at construction
     ti = ctx.trace("ADWIN", "__init__")
-    rs = [e for e in ti.raises() if e.exc == "ValueError" and e.func.qualname == "ADWIN.__init__"]
+    rs = [e for e in ti.raises() if e.exc == "ValueError" and q.stack_has(e, "ADWIN.__init__")]
     inside = T.mk_and([T.mk_cmp("<=", const(0), P("delta")), T.mk_cmp("<=", P("delta"), const(1))])
     ctx.ob("GRD", "ADWIN.__init__", "delta outside [0, 1] raises ValueError", len(rs) == 1 and q.has_guard(rs[0], T.mk_not(inside)),
            "guards: %s" % ("; ".join(q.short(g, 80) for g in guards(rs[0])) if rs else "no raise"), rs[0] if rs else None)
@@ -114,13 +114,13 @@ def formulas(ctx):
     W, Tt, V = A("_window_size"), A("_curr_total"), A("_curr_variance")
     env = {"x": x, "W": W + const(1)}
     # incremental variance step
-    sv = [e for e in tr.stores("_curr_variance") if e.func.qualname == "ADWIN._add_sample"]
+    sv = [e for e in tr.stores("_curr_variance") if q.stack_has(e, "ADWIN._add_sample")]
     spec = S("A__curr_variance + (W - 1) * (x - A__curr_total / (W - 1)) ** 2 / W", env)
     ctx.ob("FRM", "ADWIN._add_sample", "incremental sum of squared deviations (Welford/West step)", len(sv) == 1 and T.same(sv[0].value, spec),
            q.short(sv[0].value, 240) if sv else "", sv[0] if sv else None)
     if sv:
         ctx.ob("GRD", "ADWIN._add_sample", "variance step only for W > 1", q.has_guard(sv[0], S("W > 1", env)), "", sv[0])
-    stt = [e for e in tr.stores("_curr_total") if e.func.qualname == "ADWIN._add_sample"]
+    stt = [e for e in tr.stores("_curr_total") if q.stack_has(e, "ADWIN._add_sample")]
     ctx.ob("FRM", "ADWIN._add_sample", "total gains the new value", len(stt) == 1 and T.same(stt[0].value, Tt + x), "", stt[0] if stt else None)
     if sv and stt:
         ctx.ob("ORD", "ADWIN._add_sample", "variance step uses the total before the new value is added", sv[0].seq < stt[0].seq, "", sv[0])
@@ -223,7 +223,7 @@ def _lv_names(t):
 
 def scan(ctx):
     tr = ctx.trace("ADWIN", "_shrink_window")
-    ce = [e for e in q.find_calls(tr, "ADWIN._check_epsilon") if e.func.qualname == "ADWIN._shrink_window"]
+    ce = [e for e in q.find_calls(tr, "ADWIN._check_epsilon") if q.stack_has(e, "ADWIN._shrink_window")]
     if not ctx.anchor("ADWIN._shrink_window", "the split test _check_epsilon(n0, total0, n1, total1)", len(ce) == 1 and len(ce[0].args) == 4):
         return
     # the four running quantities of the scan are the locals passed to the split test
@@ -239,7 +239,7 @@ def scan(ctx):
                    "the value passed to the split test is not updated bucket by bucket: what is added to the older part must be taken from the newer part", ce[0])
         return
     N0, T0, N1, T1 = names
-    loc = [e for e in tr.of("local") if e.func.qualname == "ADWIN._shrink_window" and e.aug is not None]
+    loc = [e for e in tr.of("local") if q.stack_has(e, "ADWIN._shrink_window") and e.aug is not None]
     by = {}
     for e in loc:
         by.setdefault(e.name, []).append(e)
@@ -257,18 +257,18 @@ def scan(ctx):
         if ok:
             pos_name = inc[2].single_atom()[2][1:]
         ctx.ob("AGREE", "ADWIN._shrink_window", "scan uses bucket size 2^row", ok, "")
-    lp = [e for e in tr.of("local") if e.name == pos_name and e.func.qualname == "ADWIN._shrink_window"]
+    lp = [e for e in tr.of("local") if e.name == pos_name and q.stack_has(e, "ADWIN._shrink_window")]
     size1 = atom(("getattr", A("_bucket_row_list"), "size")) - const(1)
     ok = any(e.aug is None and T.mentions(e.value, lambda a: a[0] == "getattr" and a[2] == "size") and
              T.same(e.value - atom([a for a in T.atoms_of(e.value, "getattr") if a[2] == "size"][0]), const(-1)) for e in lp)
     dec = any(e.aug == ("Add", const(-1)) for e in lp)
     ctx.ob("AGREE", "ADWIN._shrink_window", "scan starts at the tail row (position rows-1) and moves towards the head", ok and dec, "")
     # initial split: everything in the newer part
-    init = [e for e in tr.of("local") if e.name in (N1, T1) and e.aug is None and e.func.qualname == "ADWIN._shrink_window"]
+    init = [e for e in tr.of("local") if e.name in (N1, T1) and e.aug is None and q.stack_has(e, "ADWIN._shrink_window")]
     okv = {e.name: e.value for e in init}
     ctx.ob("FRM", "ADWIN._shrink_window", "scan starts with the whole window in the newer part",
            _is_cur(okv.get(N1), "_window_size") and _is_cur(okv.get(T1), "_curr_total"), "")
-    init0 = [e for e in tr.of("local") if e.name in (N0, T0) and e.aug is None and e.func.qualname == "ADWIN._shrink_window"]
+    init0 = [e for e in tr.of("local") if e.name in (N0, T0) and e.aug is None and q.stack_has(e, "ADWIN._shrink_window")]
     ctx.ob("FRM", "ADWIN._shrink_window", "and nothing in the older part", len(init0) >= 2 and all(e.value == const(0) for e in init0), "")
     # after a removal the dropped elements leave the older part
     rm = q.find_calls(tr, "ADWIN._remove_last")
@@ -475,11 +475,11 @@ def compress_loop(ctx):
         ctx.ob("GRD", site, "a row is appended exactly when the current row has no successor", q.has_guard(e, T.mk_cmp("==", nxt, T.NONE)) and q.has_guard(e, full), "", e)
         import ast as _ast
         rn = ab[0].node.func.value.id if isinstance(ab[0].node.func, _ast.Attribute) and isinstance(ab[0].node.func.value, _ast.Name) else None
-        rd = [x for x in tc.of("local") if x.name == rn and e.seq < x.seq < ab[0].seq and len(x.pc) >= len(e.pc) and x.pc[: len(e.pc)] == e.pc]
+        rd = [x for x in tc.of("local") if x.name == rn and e.seq < x.seq < ab[0].seq and (x.pc[: len(e.pc)] == e.pc or e.pc[: len(x.pc)] == x.pc)]  # on the appending path: inside its branch, or after the branch rejoined
         ctx.ob("ORD", site, "the successor is read again after the row was appended", rn is None or bool(rd),
                "the variable holding the next row still holds None on the path that appended it", e)
     # breaks: only when this row is not full, or after a merge that left the next row within bounds
-    brk = [e for e in tc.of("break") if e.func.qualname == site]
+    brk = [e for e in tc.of("break") if q.stack_has(e, site)]
     within = T.mk_cmp("<=", atom(("getattr", nxt, "bucket_count")), A("max_buckets"))
     for e in brk:
         ok = q.has_guard(e, T.mk_not(full)) or (q.has_guard(e, full) and q.has_guard(e, within))
@@ -495,7 +495,7 @@ def shrink_loops(ctx):
     if not ctx.anchor(site, "restart loop > row traversal > bucket loop", len(loops) == 3):
         return
     (l1, L1), (l2, L2), (l3, L3) = loops
-    ce = [e for e in q.find_calls(tr, "ADWIN._check_epsilon") if e.func.qualname == site]
+    ce = [e for e in q.find_calls(tr, "ADWIN._check_epsilon") if q.stack_has(e, site)]
     if len(ce) != 1 or len(ce[0].args) != 4:
         return  # reported by scan()
     # roles: restart flag = the variable the outer loop tests; exit flag / row from the traversal test
@@ -568,7 +568,7 @@ def shrink_loops(ctx):
     ctx.ob("AGREE", site, "the split test receives (older size, older total, newer size, newer total) after this bucket was moved",
            all(T.same(a, b) for a, b in zip(ce[0].args, (n0, t0, n1, t1_))), "", ce[0])
     # ---- exits of the bucket loop
-    brk = [e for e in tr.of("break") if e.func.qualname == site]
+    brk = [e for e in tr.of("break") if q.stack_has(e, site)]
     ds = [e for e in tr.stores("_drift_state") if e.value == const("drift") and q.stack_has(e, site)]
     ctx.ob("ROLE", site, "the scan stores 'drift'", len(ds) == 1, "found %d" % len(ds))
     ret = None
@@ -596,7 +596,7 @@ def shrink_loops(ctx):
                    "finished flag %s, restart flag %s" % (q.short(locs.get(ex), 30), q.short(locs.get(flag), 30)), e)
         elif all(q.has_guard(e, g) for g in cut):
             n_b += 1
-            rl = [x for x in q.find_calls(tr, "ADWIN._remove_last") if x.func.qualname == site]
+            rl = [x for x in q.find_calls(tr, "ADWIN._remove_last") if q.stack_has(x, site)]
             removed = None
             for x in tr.events[rl[0].seq:] if rl else ():
                 if x.kind == "exit" and x.d.get("fi") is not None and x.fi.name == "_remove_last":
@@ -616,7 +616,7 @@ def shrink_loops(ctx):
     ctx.ob("ROLE", site, "a cut restarts the scan", n_b == 1, "found %d such exits" % n_b)
     # the restart request is made wherever drift is stored (also when nothing can be dropped)
     for e in ds:
-        later = [x for x in tr.of("local") if x.name == flag and x.value == T.TRUE and x.seq > ce[0].seq and x.func.qualname == site]
+        later = [x for x in tr.of("local") if x.name == flag and x.value == T.TRUE and x.seq > ce[0].seq and q.stack_has(x, site)]
         se = _site(tr, e)
         ok = any(set(map(id, x.pc)) == set(map(id, se.pc)) for x in later)
         ctx.ob("PAIR", site, "storing drift requests another scan", ok, "", se)
